@@ -112,7 +112,12 @@ def suite_episode(timeout=1800):
 
 
 def validate_suite():
-    """-> (trace result, episodes, fails, meta) for the repository-suite trace."""
-    events, meta = suite_episode()
+    """-> (trace result, episodes, fails, meta) for the repository-suite trace.  The suite is an auxiliary trace source
+    that reaches into two private attributes of Rule; if it cannot be recorded (plugin broken by a refactoring, suite
+    not runnable) it is skipped and the evidence says so - the check's own worlds do not depend on it."""
+    try:
+        events, meta = suite_episode()
+    except Exception as e:  # noqa: BLE001
+        return trace.TraceResult(), [], [], {"evaluations": 0, "skipped": {"suite trace not recorded": str(e)[:300]}}
     tr = trace.validate([events], "Trace_Rules.tla", "Trace_Rules.cfg", procs=1)
     return tr, [events], attach(tr, [{"driver": "suite"}], [events]), meta
